@@ -1,5 +1,7 @@
 import SieveModel.Lemmas.Assoc
 import SieveModel.Lemmas.Gating
+import SieveModel.Lemmas.NoCrash
+import SieveModel.Generated.Tables
 /-!
 # C20 — registered custom commands
 
@@ -74,5 +76,35 @@ theorem custom_argument_recorded_under_defined_name (d : CmdDef) (loaded : List 
     (∃ a ∈ d.args, a.name = k) ∧ assocGet st'.arguments k = some (v.toArg k) := by
   obtain ⟨a, ha, hk, _⟩ := Gating.scan_gated d.name loaded true t v st st' (d.args.drop pos) pos k h
   exact ⟨⟨a, List.mem_of_mem_drop ha, hk⟩, (Args.scan_records d.name loaded true t v st st' _ pos k h).1⟩
+
+/-- registering a definition that meets the per-definition condition keeps the table safe -/
+theorem register_keeps_table_safe (T : Table) (d : CmdDef) (hT : Safe.TableSafe T) (hd : Safe.cmdSafe d = true) :
+    Safe.TableSafe (T.register d) := by
+  intro x hx
+  unfold Table.register at hx
+  split at hx
+  · simp only [List.mem_map] at hx
+    obtain ⟨e, he, rfl⟩ := hx
+    split
+    · exact hd
+    · exact hT e he
+  · simp only [List.mem_append, List.mem_singleton] at hx
+    rcases hx with hx | rfl
+    · exact hT x hx
+    · exact hd
+
+/-- **custom commands cannot make the parser raise or hang**: whatever definitions satisfying `cmdSafe` are
+    registered on top of the library's own table, every input still gets a verdict -/
+theorem custom_commands_keep_the_verdict (ds : List CmdDef) (hds : ∀ d ∈ ds, Safe.cmdSafe d = true) (text : Bytes) :
+    Safe.Verdict (Machine.parse (ds.foldl Table.register Generated.builtinTable) text) := by
+  have hsafe : ∀ (T : Table), Safe.TableSafe T → (∀ d ∈ ds, Safe.cmdSafe d = true) →
+      Safe.TableSafe (ds.foldl Table.register T) := by
+    induction ds with
+    | nil => intro T hT _; exact hT
+    | cons d rest ih =>
+      intro T hT h
+      exact ih (fun d' hd' => hds d' (by simp [hd'])) (T.register d)
+        (register_keeps_table_safe T d hT (h d (by simp))) (fun d' hd' => h d' (by simp [hd']))
+  exact Safe.parse_verdict _ (hsafe _ (by decide +kernel) hds) text {}
 
 end C20
